@@ -126,7 +126,10 @@ def parseOp (s : String) : Option BuilderOp :=
   | _ => none
 
 def parseOps (s : String) : Option (List BuilderOp) :=
-  if s == "-" then some [] else (s.splitOn "!").mapM parseOp
+  if s == "-" then some [] else ((s.splitOn "!").filter (· != "ZERO")).mapM parseOp
+
+/-- a history that starts with the pseudo-op ZERO is applied to the zero-value `Policy{}` -/
+def baseOf (s : String) : Policy := if s.startsWith "ZERO" then {} else newPolicy
 
 /-! ### policy dump in the format of `Policy.VerifDump` -/
 
